@@ -302,6 +302,10 @@ Definition main_step (g:cfg) (s:state) (evs:list ev) (inl_:bool) : option state 
    finish_request (run by the main thread, pc MFin) is not through yet *)
 Definition pool_busy (s:state) : Z := n_running s - match mpc s with MFin _ _ => 1 | _ => 0 end.
 
+(* finish_request of a job that completed inside submit() is run by the main thread, not by a pool thread *)
+Definition fin_by_main (s:state) (c:nat) : bool :=
+  match mpc s with MFin c' _ => Nat.eqb c' c | _ => false end.
+
 Definition new_conn : conn := mkConn CPending [] [] false false 0 0 0 0.
 
 Definition step (g:cfg) (s:state) (l:label) : option state :=
@@ -310,7 +314,7 @@ Definition step (g:cfg) (s:state) (l:label) : option state :=
   | LStart c => if pool_busy s <? threads g then p_start s c else None
   | LHandle c => p_handle g s c
   | LFinish c => p_finish g s c
-  | LFinLock c => p_finlock s c
+  | LFinLock c => if fin_by_main s c then None else p_finlock s c
   | LCancel c => p_cancel s c
   | LConnect => Some (set_backlog (backlog s ++ [length (conns s)]) (set_conns (conns s ++ [new_conn]) s))
   | LSend c ks =>
